@@ -11,6 +11,7 @@ import Liftbridge.Driver.TelemetryDrv
 import Liftbridge.Driver.AuthzDrv
 import Liftbridge.Driver.GroupsDrv
 import Liftbridge.Driver.SealDrv
+import Liftbridge.Driver.GroupSubDrv
 
 namespace Liftbridge.Driver
 open Liftbridge
@@ -18,6 +19,7 @@ open Liftbridge
 structure St where
   log : LogSt := {}
   groups : GroupsSt := {}
+  groupSub : GroupSubSt := {}
 
 def showRes {α} (f : α → String) : Res α → String
   | .ok a => "ok " ++ f a
@@ -54,6 +56,7 @@ def step (st : St) (line : String) : St × String :=
   | "c19" :: rest => (st, c19 rest)
   | "c15" :: rest => (st, c15Step rest)
   | "c17" :: rest => (st, c17 rest)
+  | "c13" :: rest => let (g, out) := groupSubStep st.groupSub rest; ({ st with groupSub := g }, out)
   | "c12" :: rest => let (g, out) := groupsStep st.groups rest; ({ st with groups := g }, out)
   | "log" :: rest => let (l, out) := logStep st.log rest; ({ st with log := l }, out)
   | _ => (st, "bad-op")
